@@ -18,6 +18,12 @@ Oracle: for seeded model recipes M (same variable / parameter *names* in every m
         discovered by building every way the API derives a view), nodes nested in squared residuals and sums and at the root:
         each model against a hand-written NumPy model of its function (values, gradients, Jacobian rows, Hessians, LP data,
         optimum) and against a fresh process.
+        Histories whose operations on OTHER models are ABORTED half way by an exception the caller catches — every public
+        compile / gradient / degree / evaluate / variables / solve entry point × (variable missing from the variable list,
+        right-deep chain beyond the recursion limit, unknown operator, foreign node, a fault injected at the k-th call of an
+        internal helper of each library module, faults inside the compiled callables) — followed by a model over the same
+        names at shifted positions of the variable list, each channel in turn used first: NumPy model of the recipe's formula
+        (values, analytic gradients, Hessian, hand-computed optimum) and a fresh process.
 """
 from __future__ import annotations
 
@@ -1257,6 +1263,576 @@ def faulting_prefix():
     return outcomes
 
 
+# ----------------------------------------------------------------------------- aborted operations on other models
+#
+# A prefix history does not only consist of operations that SUCCEED.  An interactive user / a service catches the exception of
+# a call that went wrong and carries on with the next, unrelated model.  The family below builds histories of 1–3 operations on
+# other models N that END IN AN EXCEPTION HALF WAY — every public compile / gradient / degree / evaluate / variables / solve
+# entry point × every way of making it raise after part of the work was done:
+#   missing     a variable of the expression is absent from the variable list handed to the compile function (KeyError);
+#   deep-right  a right-deep chain longer than the interpreter's recursion limit (the depth estimates follow the left spine);
+#   bad-op      an operator the library does not know, somewhere inside a valid tree;
+#   foreign     a user-defined Expression subclass somewhere inside a valid tree;
+#   seam        a perfectly valid model, the k-th call of an internal helper of one library module raises (RuntimeError,
+#               MemoryError, KeyboardInterrupt, FloatingPointError) — k anywhere between the first and the last call;
+#   call-fault  the compiled callables themselves raise (array too short, np.errstate(all="raise") at a singular point);
+#   ok          (for contrast, inside longer histories) the same entry point on a valid model.
+# N is built over the NAMES of the measured model M, at SHIFTED POSITIONS of the variable list (first name dropped, a name put
+# in front, rotated, reversed …).  Then M (new objects) is built and observed through every channel — the channel used first
+# rotates, because only the operation immediately after the abort may be the one that is hurt — and judged by the formula the
+# recipe wrote down, in NumPy (values, analytic monomial gradients, central differences of them for the Hessian, the
+# hand-computed optimum of the separable quadratic that is solved), and against a fresh process.
+
+ABORT_NAMES = ["alpha", "at", "b", "c", "fee", "load", "p0", "q0", "q1", "w", "x2", "x10"]
+ABORT_CHANNELS = ["fn", "dict", "grad", "jac", "hess", "leaf", "symgrad", "solve", "solve_auto", "lp"]
+ABORT_ENTRIES = ["compile_expression", "compile_to_dict_function", "compile_gradient", "compile_jacobian", "compile_hessian",
+                 "gradient", "compute_degree", "evaluate", "variables", "solve_objective", "solve_constraint", "solve_auto",
+                 "solve_lp"]
+ABORT_MISSING_ENTRIES = ABORT_ENTRIES[:5] + ["evaluate"]
+ABORT_SEAMS = {
+    "optyx.core.compiler": ["compile_expression", "compile_to_dict_function", "compile_gradient", "compile_jacobian",
+                            "compile_hessian", "solve_objective", "solve_constraint", "solve_auto"],
+    "optyx.core.autodiff": ["gradient", "compile_gradient", "compile_jacobian", "compile_hessian", "solve_objective",
+                            "solve_constraint"],
+    "optyx.analysis": ["compute_degree", "solve_auto", "solve_lp"],
+    "optyx.solvers.scipy_solver": ["solve_objective", "solve_constraint", "solve_auto"],
+    "optyx.solvers.lp_solver": ["solve_lp"],
+    "optyx.problem": ["variables", "solve_objective", "solve_constraint", "solve_auto", "solve_lp"],
+}
+ABORT_EXC = ["RuntimeError", "MemoryError", "KeyboardInterrupt", "FloatingPointError"]
+ABORT_CALL_FAULTS = 4
+
+
+def abort_combos():
+    """every (kind, entry) of an operation that is meant to end in an exception half way"""
+    out = [("missing", e) for e in ABORT_MISSING_ENTRIES]
+    out += [(k, e) for k in ("deep-right", "bad-op", "foreign") for e in ABORT_ENTRIES]
+    out += [("seam:" + m, e) for m, es in ABORT_SEAMS.items() for e in es]
+    out += [("call-fault", str(i)) for i in range(ABORT_CALL_FAULTS)]
+    return out
+
+
+def abort_n_expr(vs, variant, bad=None, pos=0, linear=False):
+    """a valid expression over the variables `vs` (each occurs; a left-leaning sum of products — of multiples if `linear` — in
+    list order); `bad`, if given, becomes term number `pos` of the sum, so that 0 … all of the valid leaves are visited before it"""
+    n = len(vs)
+    if linear:
+        terms = [(1.5 + 0.25 * ((i + variant) % 4)) * vs[i] for i in range(n)] + [vs[variant % n] * 0.5]
+    else:
+        terms = [(1.5 + 0.25 * ((i + variant) % 4)) * vs[i] * vs[(i + 1) % n] for i in range(n)] + [vs[variant % n] ** 2]
+    if bad is not None:
+        terms.insert(pos % (len(terms) + 1), bad)
+    e = terms[0]
+    for t in terms[1:]:
+        e = e + t
+    return e
+
+
+def abort_entry(entry, e, vs, handed, env):
+    """one public entry point on the expression `e` of a model over `vs` (`handed` = the variable list given to compile_*)"""
+    from optyx import Problem
+    from optyx.core.compiler import compile_expression, compile_gradient, compile_to_dict_function
+    from optyx.core.autodiff import compile_jacobian, compile_hessian, gradient
+    from optyx.analysis import compute_degree, is_linear, is_quadratic
+
+    x = np.array([env.get(v.name, 0.5) for v in handed], dtype=float)
+    if entry == "compile_expression":
+        compile_expression(e, handed)(x)
+    elif entry == "compile_to_dict_function":
+        compile_to_dict_function(e, handed)(env)
+    elif entry == "compile_gradient":
+        compile_gradient(e, handed)(x)
+    elif entry == "compile_jacobian":
+        compile_jacobian([handed[0] * 2.0 + 1.0, e], handed)(x)
+    elif entry == "compile_hessian":
+        compile_hessian(e, handed)(x)
+    elif entry == "gradient":
+        [gradient(e, v) for v in vs]
+    elif entry == "compute_degree":
+        compute_degree(e); is_linear(e); is_quadratic(e)
+    elif entry == "evaluate":
+        e.evaluate(env)
+    elif entry == "variables":
+        P = Problem().minimize(e)
+        P.variables; P.n_variables; P.get_bounds(); P.summary()
+    elif entry == "solve_objective":
+        Problem().minimize(e).solve(method="SLSQP")
+    elif entry == "solve_constraint":
+        ridge = sum(((v - 1.0) ** 2 for v in vs[1:]), start=(vs[0] - 1.0) ** 2)
+        Problem().minimize(ridge).subject_to([vs[0] + vs[-1] >= -100.0, e >= -1000.0]).solve(method="SLSQP")
+    elif entry == "solve_auto":
+        lin = sum(((1.0 + i) * v for i, v in enumerate(vs[1:])), start=0.5 * vs[0])
+        Problem().minimize(lin).subject_to([e >= -1000.0]).solve()
+    elif entry == "solve_lp":                 # the LP route (extraction, HiGHS) whenever `e` is linear
+        lin = sum(((1.0 + i) * v for i, v in enumerate(vs[1:])), start=0.5 * vs[0])
+        Problem().minimize(lin).subject_to([vs[0] + vs[-1] >= -2.0, e >= -1000.0]).solve()
+    else:
+        raise ValueError(entry)
+
+
+def abort_seam(modname, k, excname, thunk):
+    """run `thunk` while every function (and every plain method of a class) DEFINED in the library module `modname` counts its
+    calls; the k-th call raises `excname` instead of running (k = None: count only).  Returns the number of calls seen.
+    The originals are put back on every exit path."""
+    import builtins
+    import functools
+    import importlib
+    import types
+
+    mod = importlib.import_module(modname)
+    exc = getattr(builtins, excname) if excname else None
+    state = {"n": 0}
+
+    def wrap(fn):
+        @functools.wraps(fn)
+        def w(*a, **kw):
+            state["n"] += 1
+            if k is not None and state["n"] == k:
+                raise exc(f"fault injected at call {k} of the helpers of {modname} ({fn.__name__})")
+            return fn(*a, **kw)
+        return w
+
+    patched = []
+    try:
+        for name, obj in list(vars(mod).items()):
+            if isinstance(obj, types.FunctionType) and obj.__module__ == modname:
+                patched.append((mod, name, obj)); setattr(mod, name, wrap(obj))
+            elif isinstance(obj, type) and obj.__module__ == modname:
+                for an, ao in list(vars(obj).items()):
+                    if isinstance(ao, types.FunctionType) and not an.startswith("__"):
+                        patched.append((obj, an, ao)); setattr(obj, an, wrap(ao))
+        thunk()
+    finally:
+        for o, nm, f in reversed(patched):
+            setattr(o, nm, f)
+    return state["n"]
+
+
+def abort_op(op):
+    """one operation of a prefix history, on a model N of its own (fresh objects).  op = [kind, entry, names of N in the order
+    of its variable list, variant, arg].  Returns the class name of the exception the caller caught, or "ok"."""
+    from optyx import Variable, log
+    from optyx.core.expressions import BinaryOp, Expression
+    from optyx.core.compiler import compile_expression, compile_gradient
+    from optyx.core.autodiff import compile_jacobian, compile_hessian
+
+    kind, entry, nnames, variant, arg = op
+    n = len(nnames)
+    lin = entry == "solve_lp"
+
+    def fresh():
+        vs = [Variable(nm, lb=-3.0 - variant % 3, ub=4.0 + variant % 2) for nm in nnames]
+        return vs, {v.name: 0.5 + 0.25 * i for i, v in enumerate(vs)}
+
+    def call():
+        vs, env = fresh()
+        handed = list(vs)
+        if kind == "missing":
+            m = arg % n
+            handed = vs[:m] + vs[m + 1:]
+            env.pop(vs[m].name)
+            e = abort_n_expr(vs, variant)
+        elif kind == "deep-right":
+            e = abort_n_expr(vs, variant, linear=lin)
+            for i in range(arg):
+                e = (vs[i % n] + e) if i % 5 else (vs[i % n] * 0.5 - e)
+        elif kind == "bad-op":
+            e = abort_n_expr(vs, variant, BinaryOp(vs[arg % n], vs[(arg + 1) % n], "%"), arg, linear=lin)
+        elif kind == "foreign":
+            class Opaque(Expression):                      # a user-defined node the library has no rule for
+                __slots__ = ()
+
+                def __init__(self):
+                    self._hash = None
+                    self._degree = None
+
+                def evaluate(self, values):
+                    return 1.0
+
+                def get_variables(self):
+                    return set()
+
+            e = abort_n_expr(vs, variant, vs[arg % n] * Opaque(), arg, linear=lin)
+        elif kind == "call-fault":
+            cf = int(entry)
+            e = abort_n_expr(vs, variant) + 1.0 / (vs[0] - vs[1]) + log(vs[0])
+            f = [lambda: compile_expression(e, vs), lambda: compile_gradient(e, vs), lambda: compile_jacobian([e, vs[0] * vs[1]], vs),
+                 lambda: compile_hessian(e, vs)][cf % 4]()
+            if arg % 2:
+                f(np.zeros(max(0, n - 1 - arg % 3)))         # array shorter than the variable list
+            else:
+                with np.errstate(all="raise"):
+                    f(np.zeros(n))                           # 1/0 and log(0) inside the compiled callable
+            return
+        else:
+            e = abort_n_expr(vs, variant, linear=lin)
+        abort_entry(entry, e, vs, handed, env)
+
+    try:
+        with warnings.catch_warnings(), np.errstate(all="ignore"):
+            warnings.simplefilter("ignore")
+            if kind.startswith("seam:"):
+                modname = kind.split(":", 1)[1]
+                total = abort_seam(modname, None, None, call)            # a valid run on a twin model: counts the helper calls
+                if total == 0:
+                    return "ok"
+                k = max(1, min(total, int(math.ceil(arg[0] * total))))
+                abort_seam(modname, k, arg[1], call)
+            else:
+                call()
+        return "ok"
+    except BaseException as ex:  # noqa: BLE001
+        return type(ex).__name__
+
+
+def abort_mspec(rng):
+    """recipe of a measured model M: [names in the order of the explicit variable list, monomials [coef, exponents], [s, j] for
+    s·sin(x_j), [p, l] for Parameter('p', p)·x_l, weights and targets of the separable quadratic that is solved, offset of its
+    constraint x_0 + x_1 >= t_0 + t_1 + d (None: unconstrained), the channel observed first]"""
+    k = rng.choice([2, 3, 3, 4])
+    names = rng.sample(ABORT_NAMES, k)
+    if rng.random() < 0.5:
+        names = sorted(names, key=_nat_key)               # the explicit list is also the problem's own order
+    terms = []
+    for _ in range(rng.randint(2, 4)):
+        exps = [rng.choice([0, 0, 1, 1, 2, 3]) for _ in names]
+        if sum(exps) == 0:
+            exps[rng.randrange(k)] = 1
+        terms.append([rng.choice(DY), exps])
+    for i in range(k):
+        if all(t[1][i] == 0 for t in terms):
+            terms.append([rng.choice(DY), [int(j == i) for j in range(k)]])
+    return [names, terms, [rng.choice(DY), rng.randrange(k)], [rng.choice(DY), rng.randrange(k)],
+            [rng.choice([0.5, 1.0, 2.0, 3.0]) for _ in names], [rng.choice(DY) for _ in names], rng.choice([None, -3.0, 1.0, 2.0]),
+            rng.choice(ABORT_CHANNELS)]
+
+
+def abort_m_build(ms):
+    from optyx import Variable, Parameter, Problem, sin
+
+    names, terms, trig, par, w, t, d, first = ms
+    vs = [Variable(nm, lb=-50.0, ub=50.0) for nm in names]
+    p = Parameter("p", par[0])
+    obj = None
+    for coef, exps in terms:
+        mono = None
+        for v, e in zip(vs, exps):
+            if e:
+                f = v if e == 1 else v ** e
+                mono = f if mono is None else mono * f
+        obj = coef * mono if obj is None else obj + coef * mono
+    obj = obj + trig[0] * sin(vs[trig[1]]) + p * vs[par[1]]
+    sobj = None
+    for v, wi, ti in zip(vs, w, t):
+        q = wi * (v - ti) ** 2
+        sobj = q if sobj is None else sobj + q
+    cons = [] if d is None else [vs[0] + vs[1] >= t[0] + t[1] + d]
+    prob = Problem().minimize(sobj)
+    if cons:
+        prob.subject_to(cons)
+    lobj = None
+    for i, (v, wi) in enumerate(zip(vs, w)):
+        lobj = (wi + 0.25 + 0.125 * i) * v if lobj is None else lobj + (wi + 0.25 + 0.125 * i) * v
+    lprob = Problem().minimize(lobj + 2.0).subject_to(vs[0] + vs[1] >= 1.5)
+    return {"ms": ms, "vars": vs, "obj": obj, "sobj": sobj, "cons": cons, "prob": prob, "p": p, "lprob": lprob}
+
+
+def abort_points(k):
+    return [np.array([(0.75 + 0.5 * i) * (1.0 if i % 2 == 0 else -1.0) for i in range(k)]),
+            np.array([-1.25 + 0.375 * i for i in range(k)])]
+
+
+def abort_m_observe(M) -> dict:
+    """M through every channel, as data; the channel named in the recipe is used first"""
+    from optyx.core.compiler import compile_expression, compile_gradient, compile_to_dict_function
+    from optyx.core.autodiff import compile_jacobian, compile_hessian, gradient
+    from optyx.analysis import compute_degree, LinearProgramExtractor
+
+    vs, obj, sobj, prob = M["vars"], M["obj"], M["sobj"], M["prob"]
+    pts = abort_points(len(vs))
+    envs = [{v.name: float(z) for v, z in zip(vs, x)} for x in pts]
+    out = {}
+
+    def solve(m):
+        try:
+            s = prob.solve(**({} if m == "auto" else {"method": m}))
+            return [m, s.status.name, {k: round(float(z), 6) for k, z in sorted((s.values or {}).items())},
+                    None if s.objective_value is None else round(float(s.objective_value), 6)]
+        except Exception as ex:  # noqa: BLE001
+            return [m, "raise:" + type(ex).__name__]
+
+    def chan(c):
+        if c == "fn":
+            f = compile_expression(obj, vs)
+            out["fn"] = [_f(np.asarray(f(x))) for x in pts]
+        elif c == "dict":
+            f = compile_to_dict_function(obj, vs)
+            out["dict"] = [_f(np.asarray(f(env))) for env in envs]
+        elif c == "grad":
+            f = compile_gradient(obj, vs)
+            out["grad"] = [_arr(f(x)) for x in pts]
+        elif c == "jac":
+            f = compile_jacobian([obj, sobj] + [cn.expr for cn in M["cons"]], vs)
+            out["jac"] = [_arr(f(x)) for x in pts]
+        elif c == "hess":
+            f = compile_hessian(obj, vs)
+            out["hess"] = [_arr(f(x)) for x in pts]
+        elif c == "leaf":
+            out["leaf"] = [[_f(np.asarray(compile_expression(v, vs)(x))) for v in vs] for x in pts]
+        elif c == "symgrad":
+            gs = [gradient(obj, v) for v in vs]
+            out["symgrad"] = [[_f(np.asarray(g.evaluate(env))) for g in gs] for env in envs]
+        elif c == "solve":
+            out["solve"] = solve("SLSQP")
+        elif c == "solve_auto":
+            out["solve_auto"] = solve("auto")
+        elif c == "lp":
+            dd = LinearProgramExtractor().extract(M["lprob"])
+            s = M["lprob"].solve()
+            out["lp"] = [list(dd.variables), _arr(dd.c), None if dd.A_ub is None else _arr(dd.A_ub),
+                         None if dd.b_ub is None else _arr(dd.b_ub), [[None if z is None else _f(z) for z in bd] for bd in dd.bounds],
+                         s.status.name, {k: round(float(z), 6) for k, z in sorted((s.values or {}).items())},
+                         None if s.objective_value is None else round(float(s.objective_value), 6)]
+
+    first = M["ms"][7]
+    with warnings.catch_warnings(), np.errstate(all="ignore"):
+        warnings.simplefilter("ignore")
+        for c in [first] + [c for c in ABORT_CHANNELS if c != first]:
+            try:
+                chan(c)
+            except Exception as ex:  # noqa: BLE001
+                out[c] = "raise:" + type(ex).__name__
+        always = {
+            "eval": lambda: [_f(np.asarray(obj.evaluate(env))) for env in envs],
+            "seval": lambda: [_f(np.asarray(sobj.evaluate(env))) for env in envs],
+            "sfn": lambda: [_f(np.asarray(compile_expression(sobj, prob.variables)(
+                np.array([env[v.name] for v in prob.variables])))) for env in envs],
+            "degree": lambda: [compute_degree(obj), compute_degree(sobj)],
+            "varnames": lambda: [v.name for v in prob.variables],
+        }
+        for c, th in always.items():
+            try:
+                out[c] = th()
+            except Exception as ex:  # noqa: BLE001
+                out[c] = "raise:" + type(ex).__name__
+    return out
+
+
+def abort_m_numpy(ms):
+    """the function the recipe wrote down, as plain NumPy: value, analytic gradient; the quadratic that is solved"""
+    names, terms, trig, par, w, t, d, _first = ms
+    C = np.array([c for c, _ in terms], dtype=float)
+    E = np.array([e for _, e in terms], dtype=int)
+    w, t = np.array(w, dtype=float), np.array(t, dtype=float)
+
+    def f(x):
+        return float(C @ np.prod(x[None, :] ** E, axis=1)) + trig[0] * math.sin(x[trig[1]]) + par[0] * x[par[1]]
+
+    def g(x):
+        out = np.zeros(len(names))
+        for m in range(len(names)):
+            for c, e in zip(C, E):
+                if e[m]:
+                    e2 = e.copy(); e2[m] -= 1
+                    out[m] += c * e[m] * float(np.prod(x ** e2))
+        out[trig[1]] += trig[0] * math.cos(x[trig[1]])
+        out[par[1]] += par[0]
+        return out
+
+    def q(x):
+        return float(w @ (x - t) ** 2)
+
+    def qg(x):
+        return 2.0 * w * (x - t)
+
+    return f, g, q, qg
+
+
+def abort_m_judge(ms, got):
+    """independent verdict on the observations of M: (where, got, expected) of the first disagreement or None"""
+    names, terms, trig, par, w, t, d, _first = ms
+    k = len(names)
+    f, g, q, qg = abort_m_numpy(ms)
+    for c in ABORT_CHANNELS + ["eval", "seval", "sfn", "degree", "varnames"]:
+        if isinstance(got.get(c), str):
+            return "/" + c, got[c], "no exception: the model is valid"
+    if got["varnames"] != sorted(names, key=_nat_key):
+        return "/varnames", got["varnames"], sorted(names, key=_nat_key)
+    if got["degree"] != [None, 2]:         # the sine term (coefficient never 0) makes the first one non-polynomial
+        return "/degree", got["degree"], [None, 2]
+    crow = np.zeros(k); crow[0] = crow[1] = 1.0
+    for i, x in enumerate(abort_points(k)):
+        fx, gx = f(x), g(x)
+        for key in ("eval", "fn", "dict"):
+            if not _close(_num([got[key][i]]), [fx], 1e-9, 1e-9):
+                return f"/{key}[{i}]", got[key][i], fx
+        for key in ("seval", "sfn"):
+            if not _close(_num([got[key][i]]), [q(x)], 1e-9, 1e-9):
+                return f"/{key}[{i}]", got[key][i], q(x)
+        if not _close(_num(got["leaf"][i]), x, 0.0, 0.0):
+            return f"/leaf[{i}]", got["leaf"][i], x.tolist()
+        for key in ("grad", "symgrad"):
+            if not _close(_num(got[key][i]), gx, 1e-8, 1e-8):
+                return f"/{key}[{i}]", got[key][i], gx.tolist()
+        jac = np.vstack([gx, qg(x)] + ([] if d is None else [crow]))
+        if not _close(_num(got["jac"][i]), jac, 1e-8, 1e-8):
+            return f"/jac[{i}]", got["jac"][i], jac.ravel().tolist()
+        h = 1e-5
+        H = np.array([(g(x + h * e) - g(x - h * e)) / (2 * h) for e in np.eye(k)])
+        if not _close(_num(got["hess"][i]), H, 1e-5, 1e-5):
+            return f"/hess[{i}]", got["hess"][i], np.round(H, 6).ravel().tolist()
+    # hand-computed optimum of  sum w_i (x_i - t_i)^2  s.t.  x_0 + x_1 >= t_0 + t_1 + d :  x = t if d <= 0, otherwise the
+    # constraint is active and  x_0 - t_0 = d w_1 / (w_0 + w_1),  x_1 - t_1 = d w_0 / (w_0 + w_1)
+    xstar = np.array(t, dtype=float)
+    if d is not None and d > 0:
+        xstar[0] += d * w[1] / (w[0] + w[1])
+        xstar[1] += d * w[0] / (w[0] + w[1])
+    fstar = q(xstar)
+    want = ["OPTIMAL", dict(zip(names, np.round(xstar, 6).tolist())), round(fstar, 6)]
+    for key in ("solve", "solve_auto"):
+        ent = got[key]
+        if len(ent) < 4 or ent[1] != "OPTIMAL" or ent[3] is None or sorted(ent[2]) != sorted(names):
+            return "/" + key, ent, want
+        xs = np.array([ent[2][nm] for nm in names])
+        if not _close(xs, xstar, 0.0, 5e-3) or not _close([ent[3]], [fstar], 1e-4, 1e-4):
+            return "/" + key, ent, want
+    # the linear model: minimise sum (w_i + 0.25 + 0.125 i) x_i + 2  s.t.  x_0 + x_1 >= 1.5,  -50 <= x <= 50 — its data
+    # written down here in the problem's own (natural) order of the names, the optimum from SciPy on that data
+    from scipy.optimize import linprog
+
+    order = sorted(names, key=_nat_key)
+    cvec = np.array([w[names.index(nm)] + 0.25 + 0.125 * names.index(nm) for nm in order])
+    arow = np.array([-1.0 if nm in names[:2] else 0.0 for nm in order])
+    lp = got["lp"]
+    if lp[0] != order:
+        return "/lp/variables", lp[0], order
+    if not _close(_num(lp[1]), cvec, 1e-12, 1e-12):
+        return "/lp/c", lp[1], cvec.tolist()
+    if lp[2] is None or lp[3] is None or not _close(_num(lp[2]), arow, 1e-12, 1e-12) or not _close(_num(lp[3]), [-1.5], 1e-12, 1e-12):
+        return "/lp/A_ub,b_ub", [lp[2], lp[3]], [arow.tolist(), [-1.5]]
+    if not _close(_num([t for bd in lp[4] for t in bd]), [-50.0, 50.0] * k, 0.0, 0.0):
+        return "/lp/bounds", lp[4], [[-50.0, 50.0]] * k
+    res = linprog(cvec, A_ub=arow[None, :], b_ub=[-1.5], bounds=[(-50.0, 50.0)] * k, method="highs")
+    wantlp = ["OPTIMAL", dict(zip(order, np.round(res.x, 6).tolist())), round(float(res.fun) + 2.0, 6)]
+    xs = np.array([lp[6].get(nm, float("nan")) for nm in order])
+    if lp[5] != "OPTIMAL" or lp[7] is None or not _close(xs, res.x, 1e-7, 1e-7) or not _close([lp[7]], [res.fun + 2.0], 1e-7, 1e-7):
+        return "/lp/solve", lp[5:], wantlp
+    return None
+
+
+def abort_n_names(rng, mnames):
+    """names of a model N over the names of M at SHIFTED positions of the variable list (relative to M's explicit list and,
+    whenever possible, to the problem's own sorted order as well), at least three variables"""
+    extra = [nm for nm in ABORT_NAMES if nm not in mnames]
+    msorted = sorted(mnames, key=_nat_key)
+
+    def shifted(nn, order):
+        return any(nm in nn and nn.index(nm) != i for i, nm in enumerate(order))
+
+    best = None
+    for _ in range(12):
+        base = list(rng.choice([mnames, msorted]))
+        mode = rng.choice(["drop-first", "prepend", "rotate", "reverse", "insert", "shuffle"])
+        if mode == "drop-first":
+            nn = base[1:]
+        elif mode == "prepend":
+            nn = [rng.choice(extra)] + base
+        elif mode == "rotate":
+            nn = base[1:] + base[:1]
+        elif mode == "reverse":
+            nn = base[::-1]
+        elif mode == "insert":
+            nn = base[:1] + [rng.choice(extra)] + base[1:]
+        else:
+            nn = list(base); rng.shuffle(nn)
+        while len(nn) < 3:
+            nn.append(rng.choice([nm for nm in extra if nm not in nn]))
+        if shifted(nn, mnames):
+            best = best or nn
+            if shifted(nn, msorted):
+                return nn
+    return best or (list(mnames[1:]) + list(mnames[:1]) + [extra[0]])
+
+
+def abort_make_op(rng, combo, mnames):
+    kind, entry = combo
+    nn = abort_n_names(rng, mnames)
+    variant = rng.randint(0, 7)
+    if kind == "deep-right":
+        arg = rng.choice([sys.getrecursionlimit() + 200, 3000])
+    elif kind.startswith("seam:"):
+        arg = [rng.choice([0.0, 0.2, 0.35, 0.5, 0.65, 0.8, 0.95, 1.0]), rng.choice(ABORT_EXC)]
+    else:
+        arg = rng.randint(0, 11)
+    return [kind, entry, nn, variant, arg]
+
+
+def abort_plan(rng, n_models, rounds):
+    """histories: every aborting (kind, entry) is, `rounds` times, the operation immediately before a measured model; in front
+    of it 0–2 further operations (aborting or valid) on other models.  Returns [(history, recipe of M)] and the recipes"""
+    specs = [abort_mspec(rng) for _ in range(n_models)]
+    combos = abort_combos()
+    plan = []
+    for r in range(rounds):
+        order = list(combos)
+        rng.shuffle(order)
+        for i, last in enumerate(order):
+            ms = specs[(i + r * 7) % n_models]
+            hist = []
+            for _ in range(rng.choice([0, 0, 1, 1, 2])):
+                c = rng.choice(combos) if rng.random() < 0.7 else ("ok", rng.choice(ABORT_ENTRIES))
+                hist.append(abort_make_op(rng, c, ms[0]))
+            hist.append(abort_make_op(rng, last, ms[0]))
+            plan.append((hist, ms))
+    return plan, specs
+
+
+def abort_family(rep, ref, plan, stop_at_first=False, max_failures=3):
+    """each history: the operations on the other models are run (exceptions caught, as a caller would), then M is built,
+    observed and judged; nothing is cleared in between"""
+    n_bad = 0
+    for hist, ms in plan:
+        before = interpreter_state()
+        outcomes = [abort_op(op) for op in hist]
+        after = interpreter_state()
+        got = abort_m_observe(abort_m_build(ms))
+        rep.evaluations += 1
+        last = hist[-1]
+        if any(o != "ok" for o in outcomes):
+            rep.nontrivial.add(("abort", json.dumps(hist), json.dumps(ms)))
+        key, sub = f"abort:{last[0]}", f"{last[1] if last[0] != 'call-fault' else 'call'}:{outcomes[-1]}"
+        rep.histogram.setdefault(key, {})
+        rep.histogram[key][sub] = rep.histogram[key].get(sub, 0) + 1
+        bad = None
+        head = {"abort": [hist, ms], "outcomes": outcomes, "model": {"variables": ms[0], "first_channel": ms[7]},
+                "last_operation": f"{last[0]} × {last[1]} on a model over {last[2]}: {outcomes[-1]}"}
+        if before != after:
+            bad = dict(head, what="process-wide interpreter state changed by operations on other models that ended in an exception",
+                       where="/interpreter_state", got=str(after)[:300], expected=str(before)[:300])
+        if bad is None:
+            verdict = abort_m_judge(ms, got)
+            if verdict:
+                bad = dict(head, what="a model measured after operations on OTHER models that were aborted by an exception (shared "
+                                      "variable names at other positions of the variable list) disagrees with the NumPy model of "
+                                      "the formula it was built from",
+                           where=verdict[0], got=str(verdict[1])[:300], expected=str(verdict[2])[:300])
+        if bad is None and ref is not None:
+            want = ref[json.dumps(["abort", ms])]
+            dd = same(got, want)
+            if dd:
+                k0 = dd.split("/")[1].split("[")[0]
+                bad = dict(head, what="a model measured after aborted operations on other models differs from a fresh process",
+                           where=dd, got=str(got.get(k0))[:300], fresh=str(want.get(k0))[:300])
+        if bad:
+            rep.oracle_failures.append(bad)
+            n_bad += 1
+            if stop_at_first:
+                return bad
+            if n_bad >= max_failures:
+                break
+    return None
+
+
 # ----------------------------------------------------------------------------- object lifetime: discard-and-rebuild
 
 LIFE_KINDS = ["lin", "quad", "quart", "nonpoly", "param"]
@@ -1531,6 +2107,8 @@ def _ref_main():
             out[json.dumps(s)] = small_observe(small_build(small_specs()[s[1]], s[2]))
         elif isinstance(s, list) and s[0] == "view":
             out[json.dumps(s)] = view_observe(view_build(s[1], s[2]))
+        elif isinstance(s, list) and s[0] == "abort":
+            out[json.dumps(s)] = abort_m_observe(abort_m_build(s[1]))
         elif isinstance(s, list) and s[0] == "probe":
             out[json.dumps(s)] = probe_observe(probe_build(s[1], s[2], "s"), full=probe_full(s[1], s[2]))
         elif isinstance(s, list):      # ["life", kind, depth]
@@ -1636,7 +2214,9 @@ def run(ctx) -> core.Report:
     rep = core.Report(rule="seeded model recipes (8 structural families over the same variable / parameter names, bounds and "
                            "parameter values varied) × prefix k ∈ {0, 1, 5, capacity+50}; non-trivial = (recipe, k) with k ≥ 1 "
                            "whose prefix shares names with the model, and every discard-and-rebuild round (5 degree classes × shallow / deep "
-                           "chains); every model of a sequence over distinct views with equal label and size that follows another one; "
+                           "chains); every model of a sequence over distinct views with equal label and size that follows another one; every model "
+                           "measured after a history in which an operation on another model (same names, shifted positions) ended in "
+                           "an exception; "
                            "LRU policy: random request sequences, capacities 0–6")
     base = ctx["seed"] * 1000
     n_models = 64 if thorough else 24
@@ -1659,7 +2239,9 @@ def run(ctx) -> core.Report:
             if ["view", rc, tset] not in view_items:
                 view_items.append(["view", rc, tset])
     rep.histogram["views:colliding_labels_found"] = view_strata
-    ref = reference(seeds + probe_items + small_items + slack_items + view_items)
+    aborts, abort_specs = abort_plan(rng, 48 if thorough else 24, 4 if thorough else 1)
+    abort_items = [["abort", ms] for ms in abort_specs]
+    ref = reference(seeds + probe_items + small_items + slack_items + view_items + abort_items)
     probe_ref = small_ref = slack_ref = ref
     ref_own = reference(own, own_process_each=True)
     for s in own:
@@ -1723,6 +2305,9 @@ def run(ctx) -> core.Report:
         # distinct vector / matrix views with equal label and size in consecutive independent models
         clear_lru()
         view_family(rep, ref, views)
+        # histories whose operations on other models are ABORTED half way by an exception (every entry point × every way of
+        # failing), then a model over the same names at shifted positions: NumPy model of its formula + fresh process
+        abort_family(rep, ref, aborts)
         # prefixes that end in exceptions: interpreter-wide state untouched, later observations unaffected
         before = interpreter_state()
         outcomes = faulting_prefix()
@@ -1765,7 +2350,15 @@ def run(ctx) -> core.Report:
 
 def search(ctx, rep):
     rng = core.Rng(ctx["seed"] + 15485863)
-    # vector nodes over colliding views first (judged by the NumPy model of each function: no reference needed)
+    # models measured after aborted operations on other models (judged by the NumPy model of their formula: no reference needed)
+    try:
+        plan, _ = abort_plan(rng, 60, 3)
+        found = abort_family(core.Report(), None, plan, stop_at_first=True)
+        if found:
+            return found
+    finally:
+        clear_lru()
+    # vector nodes over colliding views (judged by the NumPy model of each function: no reference needed)
     try:
         clear_lru()
         plan, _ = view_plan(rng, True, n_sampled=12)
@@ -1801,6 +2394,17 @@ def replay(payload) -> bool:
         clear_lru()
         try:
             slack_family(rep, None, ref, th, only=i)
+        finally:
+            clear_lru()
+        print("failures:", rep.oracle_failures[:1])
+        return not rep.oracle_failures
+    if "abort" in f:
+        hist, ms = f["abort"]
+        ref = reference([["abort", ms]], own_process_each=True)
+        rep = core.Report()
+        clear_lru()
+        try:
+            abort_family(rep, ref, [(hist, ms)])
         finally:
             clear_lru()
         print("failures:", rep.oracle_failures[:1])
